@@ -1,6 +1,9 @@
 import TracklibVerif.Lemmas.MapMatchSound
 import TracklibVerif.Lemmas.MapMatchViterbi
 import TracklibVerif.Lemmas.MapMatchCompose
+import TracklibVerif.Lemmas.MapMatchZ
+import TracklibVerif.Lemmas.MapMatchTotal
+import TracklibVerif.Lemmas.MapMatchIndexSound
 /-! # C10 — map-matched positions lie on a real edge within the search radius
 
 Property theorems only (helpers in `Lemmas/MapMatch.lean`, `Lemmas/MapMatchSound.lean`, `Lemmas/MapMatchNet.lean`,
@@ -23,8 +26,20 @@ two parts of that geometry on either side of `s.p` (distances to the two end nod
 length `polyLength`. Part III (T13–T14) instantiates the two parameters with the models of C09 and C08 through their registered
 theorems.
 
+Part IV (T15–T21, T19b) is about `Model/MapMatchZ.lean`: the same code on networks and tracks WITH ALTITUDES (`LINESTRING(x y z, …)`
+read by `NetworkReader`, hand-built networks and GPS tracks with `ENUCoords(x, y, z)`). **Which length the property means.** The
+code measures an edge PLANIMETRICALLY: `computeAbsCurv` sums `distance2DTo` (T15), the assigned point is `ENUCoords(x, y, 0)` on
+the planimetric geometry and `__distToNode` completes the abscissas with `distance2DTo`; so "distances to the edge's two end
+nodes measured along the edge that add up to the edge length" holds with the planimetric length `polyLength3` of the stored
+geometry (T17, T19, T20) — NOT with `Track.length()` / `Edge.weight`, which is the 3D length and is larger on every edge that
+is not level (T16). No altitude — of a vertex, of a node, of an observation — influences a candidate, an assigned point, a
+distance or an exception (T18); the flag state carries the observation's own position, altitude included; the network stores
+geometries with their altitudes as given (T20).
+
 Exceptions (`ZeroDivisionError` of the projection on a vertical segment, D16; `UnboundLocalError` on a candidate edge all of
-whose vertices coincide) are outside: every statement is about a call that returns. -/
+whose vertices coincide): Parts I–IV are about a call that returns; Part V (T22–T25) says when it does: on a network none of
+whose edge geometries has a kept vertical segment and each of which has a kept segment (`GoodGeom`), for every answer of the
+index made of existing edge numbers and every decoder answering in-range indices, nothing is raised. -/
 namespace TV.C10
 open TV.Proj TV.MapMatch
 variable {α : Type} [Field α] [LinearOrder α] [IsStrictOrderedRing α]
@@ -453,5 +468,307 @@ example : (match buildNet Rat.floor demoEdges.reverse 1 (some (4, 4)) 2 with
        | ([r], none) => r.states.any (fun l => l.any (fun s => decide (s.edge = 1 ∧ s.p = (7, 0) ∧ s.d0 = 7 ∧ s.d1 = 1)))
        | _ => false)
     | .error _ => false) = true := by decide +kernel
+
+/-! ## Part IV — networks and tracks with altitudes (`Model/MapMatchZ`) -/
+
+/-- T15 `abs_curv_planimetric`: `computeAbsCurv` on an edge geometry with altitudes (`ds` = `distance2DTo`, then `INTEGRATOR`) is
+`computeAbsCurv` on its planimetric vertices: two geometries with the same `(x, y)` have the same column whatever their altitudes;
+`abs_curv[i]` is the PLANIMETRIC length of the geometry up to vertex `i`, the last value is the planimetric length of the edge. -/
+theorem abs_curv_planimetric (sqrt : α → α) (g : List (P3 α)) :
+    absCurv3 sqrt g = absCurv sqrt (g.map xy) ∧
+    (∀ g' : List (P3 α), g'.map xy = g.map xy → absCurv3 sqrt g' = absCurv3 sqrt g) ∧
+    (∀ i, i < g.length → (absCurv3 sqrt g)[i]? = some (polyLength sqrt ((g.map xy).take (i + 1)))) ∧
+    (g ≠ [] → (absCurv3 sqrt g)[g.length - 1]? = some (polyLength3 sqrt g)) := by
+  refine ⟨absCurv3_eq sqrt g, fun g' h => by rw [absCurv3_eq, absCurv3_eq, h], ?_, ?_⟩
+  · intro i hi
+    rw [absCurv3_eq]
+    exact absCurv_take sqrt (g.map xy) i (by simpa using hi)
+  · intro hg
+    rw [absCurv3_eq]
+    have := absCurv_last sqrt (g.map xy) (by simpa using hg)
+    simpa [polyLength3] using this
+
+/-- T16 `weight_is_3d_length`: the edge made by `NetworkReader` (no weight column) / by the hand-written builders carries the
+computed `abs_curv` column and the weight `Track.length()`, which is the 3D length: at least the planimetric length that the
+along-edge distances of a matched state add up to, and equal to it when all vertices of the edge have the same altitude. -/
+theorem weight_is_3d_length {sqrt : α → α} (hs : SqrtSpec sqrt) (id : Nat) (g : List (P3 α)) (o : Int) :
+    (readerEdge3 sqrt id g o).curv = absCurv3 sqrt g ∧ (readerEdge3 sqrt id g o).geom = g ∧
+    (readerEdge3 sqrt id g o).weight = trackLength3D sqrt g ∧
+    polyLength3 sqrt g ≤ trackLength3D sqrt g ∧
+    (∀ c, (∀ p ∈ g, p.2.2 = c) → trackLength3D sqrt g = polyLength3 sqrt g) := by
+  refine ⟨rfl, rfl, rfl, ?_, ?_⟩
+  · cases g with
+    | nil => exact le_refl _
+    | cons p rest => exact polyLengthFrom_le_trackLengthFrom hs rest 0 0 p (le_refl _)
+  · intro c hc
+    cases g with
+    | nil => rfl
+    | cons p rest =>
+      exact polyLengthFrom_eq_trackLengthFrom sqrt c rest 0 p (hc p (by simp)) (fun q hq => hc q (List.mem_cons_of_mem _ hq))
+
+/-- T17 `states_flag_or_matched_3d` (T8 with altitudes): on edges whose `abs_curv` columns are the computed ones, `STATES[i]` — for
+any answer of the index — is the flag state alone, `(position, -1, -1, -1)` with the observation's OWN 3D position, or a
+non-empty list of matched states: the assigned point has `U = 0` and, in the plane, lies on a segment of the geometry stored
+under an existing edge number, strictly within the radius of the (planimetric) observed position, with the PLANIMETRIC
+along-edge distances to the two end nodes, which add up to the planimetric length of that geometry. -/
+theorem states_flag_or_matched_3d {sqrt : α → α} (hs : SqrtSpec sqrt) (eps radius : α) (edges : List (Edge3 α))
+    (hcurv : ∀ eg ∈ edges, eg.curv = absCurv3 sqrt eg.geom) (pos : P3 α)
+    (cand : Option (List Nat)) (l : List (State3 α)) (h : obsStates3 sqrt eps radius edges pos cand = .ok l) :
+    l = [flag3 pos] ∨ (l ≠ [] ∧ ∀ s ∈ l, s.p.2.2 = 0 ∧
+      ∃ (n : Nat) (eg : Edge3 α), s.edge = (n : Int) ∧ edges[n]? = some eg ∧
+        SoundOn sqrt radius (eg.geom.map xy) (xy pos) (flatS s) ∧ s.d0 + s.d1 = polyLength3 sqrt eg.geom) := by
+  rcases obsStates3_matched hs eps radius edges hcurv pos cand l h with hf | ⟨hne, hall⟩
+  · exact Or.inl hf
+  · refine Or.inr ⟨hne, fun s hsm => ?_⟩
+    obtain ⟨hz, n, eg, hn, heg, hso⟩ := hall s hsm
+    rw [List.getElem?_map] at heg
+    cases he : edges[n]? with
+    | none => rw [he] at heg; simp at heg
+    | some e3 =>
+      rw [he] at heg
+      simp only [Option.map_some, Option.some.injEq] at heg
+      subst heg
+      have hsum : s.d0 + s.d1 = polyLength3 sqrt e3.geom := by
+        obtain ⟨i, p1, p2, d, _, _, _, _, _, _, _, _, hsum⟩ := hso
+        exact hsum
+      exact ⟨hz, n, e3, hn, he, hso, hsum⟩
+
+/-- T18 `altitudes_irrelevant`: (a) building a network with altitudes and then forgetting them gives the network built from the
+planimetric data: same edge numbers, same `abs_curv` columns, the same spatial index, the same exceptions; (b) `STATES` of a
+track with altitudes on a network with altitudes, the altitudes of the assigned points forgotten, is `STATES` of the planimetric
+track on the planimetric network, exceptions included: no altitude influences a candidate, an assigned point or a distance. -/
+theorem altitudes_irrelevant (sqrt : α → α) (fl : α → Int) (eps radius : α) :
+    (∀ (es : List (EdgeIn3 α × Node3 α × Node3 α)) (late : Nat) (res : Option (α × α)) (margin : α),
+      (buildNet3 fl es late res margin).map flatNet =
+        buildNet fl (es.map (fun x => (flatEI x.1, flatNode x.2.1, flatNode x.2.2))) late res margin) ∧
+    (∀ (net : Net3 α) (track : List (Obs3 α)),
+      (allStatesNet3 sqrt fl eps radius net track).map (List.map (List.map flatS)) =
+        allStatesNet sqrt fl eps radius (flatNet net) (track.map flatO)) :=
+  ⟨fun es late res margin => buildNet3_flat fl es late res margin,
+   fun net track => allStatesNet3_flat sqrt fl eps radius net track⟩
+
+/-- T19 `front_end_sound_3d` (T10 and T12 with altitudes): `mapOnNetwork(tracks, network, …)` on a network with altitudes whose
+edge geometries carry computed `abs_curv` columns — a bare track or a collection, any decoder, any index: the `j`-th track
+processed keeps its observations (count, order, 3D positions, timestamps), gets the three columns, and every `hmm_inference`
+entry is one of `STATES[k]` and is the flag state with the observation's own 3D position, or a matched state (T17): `U = 0`,
+on the planimetric geometry stored under an existing edge number, strictly within `search_radius`, with planimetric along-edge
+distances that add up to the planimetric length of that geometry. -/
+theorem front_end_sound_3d {sqrt : α → α} (hs : SqrtSpec sqrt) (fl : α → Int) (eps : α) (net : Net3 α)
+    (hcurv : ∀ eg ∈ netEdges3 net, eg.curv = absCurv3 sqrt eg.geom) (dec : Decoder3 α) (a : Args α) (tracks : TracksArg3 α)
+    (j : Nat) (r : ResultN3 α) (hr : (mapOnNetworkFront3 sqrt fl eps net dec a tracks).1[j]? = some r) :
+    ∃ t, tracks.toList[j]? = some t ∧ r.track.obs = t.obs ∧ r.inference.length = t.obs.length ∧
+      r.track.names = addName (addName (addName t.names "obs_noise") "hmm_inference") "hmm_cost" ∧
+      r.track.noise = (if t.names.contains "obs_noise" then t.noise else t.obs.map (fun _ => a.gpsNoise)) ∧
+      ∀ (k : Nat) (o : Obs3 α) (st : State3 α), t.obs[k]? = some o → r.inference[k]? = some st →
+        (∃ l, r.states[k]? = some l ∧ st ∈ l) ∧
+        (st = flag3 o.pos ∨ (st.p.2.2 = 0 ∧ Matched sqrt a.searchRadius ((netEdges3 net).map flatE) (xy o.pos) (flatS st))) := by
+  obtain ⟨t, ht, hm⟩ := matchLoop_spec3 sqrt fl eps net dec a tracks.toList j r hr
+  obtain ⟨h1, h2, h3, h4, h5⟩ := matchOne_spec3 hs fl eps net hcurv dec a t r hm
+  exact ⟨t, ht, h1, h2, h4, h5, h3⟩
+
+/-- T19b `front_end_tracks_independent_3d` (T11 with altitudes): the result of the `j`-th track is the result of `__mapOnNetwork` on
+that track alone; a bare `Track` is the collection of that one track; `transition_cost`, `debug`, `verbose` influence nothing;
+when nothing is raised every track has been processed. -/
+theorem front_end_tracks_independent_3d (sqrt : α → α) (fl : α → Int) (eps : α) (net : Net3 α) (dec : Decoder3 α) (a : Args α) :
+    (∀ (tracks : TracksArg3 α) (j : Nat) (r : ResultN3 α), (mapOnNetworkFront3 sqrt fl eps net dec a tracks).1[j]? = some r →
+      ∃ t, tracks.toList[j]? = some t ∧ matchOne3 sqrt fl eps net dec a t = .ok r) ∧
+    (∀ t, mapOnNetworkFront3 sqrt fl eps net dec a (.one t) = mapOnNetworkFront3 sqrt fl eps net dec a (.many [t])) ∧
+    (∀ (a' : Args α) (tracks : TracksArg3 α), a'.gpsNoise = a.gpsNoise → a'.searchRadius = a.searchRadius →
+      mapOnNetworkFront3 sqrt fl eps net dec a' tracks = mapOnNetworkFront3 sqrt fl eps net dec a tracks) ∧
+    (∀ (tracks : TracksArg3 α), (mapOnNetworkFront3 sqrt fl eps net dec a tracks).2 = none →
+      (mapOnNetworkFront3 sqrt fl eps net dec a tracks).1.length = tracks.toList.length) := by
+  refine ⟨fun tracks j r h => matchLoop_spec3 sqrt fl eps net dec a tracks.toList j r h, fun t => rfl, ?_,
+    fun tracks h => matchLoop_complete3 sqrt fl eps net dec a tracks.toList h⟩
+  intro a' tracks h1 h2
+  have hone : ∀ t, matchOne3 sqrt fl eps net dec a' t = matchOne3 sqrt fl eps net dec a t := by
+    intro t; unfold matchOne3; rw [h1, h2]
+  unfold mapOnNetworkFront3
+  generalize tracks.toList = ts
+  induction ts with
+  | nil => rfl
+  | cons t rest ih => simp only [matchLoop3, hone t, ih]
+
+/-- T20 `matched_on_built_network_3d` (T7 and T10b with altitudes): a network built by `addEdge` from edges made the way
+`NetworkReader` makes them from `LINESTRING(x y z, …)` (`computeAbsCurv`, then `Edge`), with pairwise different ids, stores under
+edge number `n` the `n`-th geometry handed over WITH ITS ALTITUDES, unchanged; and a matched state names the number `n` of an edge
+handed over, has `U = 0` and is `SoundOn` the planimetric vertices of THAT geometry, its two distances adding up to its
+planimetric length. -/
+theorem matched_on_built_network_3d {sqrt : α → α} (hs : SqrtSpec sqrt) (fl : α → Int) (eps : α)
+    (es : List (EdgeIn3 α × Node3 α × Node3 α)) (late : Nat) (res : Option (α × α)) (margin : α) (net : Net3 α)
+    (hnd : (es.map (fun x => x.1.id)).Nodup) (hmade : ∀ x ∈ es, x.1.curv = absCurv3 sqrt x.1.geom)
+    (hb : buildNet3 fl es late res margin = .ok net)
+    (dec : Decoder3 α) (a : Args α) (tracks : TracksArg3 α)
+    (j : Nat) (r : ResultN3 α) (hr : (mapOnNetworkFront3 sqrt fl eps net dec a tracks).1[j]? = some r) :
+    netEdges3 net = es.map (fun x => (⟨x.1.geom, x.1.curv⟩ : Edge3 α)) ∧
+    ∃ t, tracks.toList[j]? = some t ∧ r.track.obs = t.obs ∧
+      ∀ (k : Nat) (o : Obs3 α) (st : State3 α), t.obs[k]? = some o → r.inference[k]? = some st →
+        st = flag3 o.pos ∨ (st.p.2.2 = 0 ∧ ∃ (n : Nat) (x : EdgeIn3 α × Node3 α × Node3 α), st.edge = (n : Int) ∧ es[n]? = some x ∧
+          SoundOn sqrt a.searchRadius (x.1.geom.map xy) (xy o.pos) (flatS st) ∧
+          st.d0 + st.d1 = polyLength3 sqrt x.1.geom) := by
+  have hne := buildNet_edges3 fl es late res margin net hnd hb
+  have hcurv : ∀ eg ∈ netEdges3 net, eg.curv = absCurv3 sqrt eg.geom := by
+    intro eg heg
+    rw [hne] at heg
+    obtain ⟨x, hx, rfl⟩ := List.mem_map.mp heg
+    exact hmade x hx
+  obtain ⟨t, ht, h1, _, _, _, h3⟩ := front_end_sound_3d hs fl eps net hcurv dec a tracks j r hr
+  refine ⟨hne, t, ht, h1, ?_⟩
+  intro k o st hk hst
+  rcases (h3 k o st hk hst).2 with hfl | ⟨hz, n, eg, hn, heg, hso⟩
+  · exact Or.inl hfl
+  · right
+    rw [hne, List.map_map, List.getElem?_map] at heg
+    cases hx : es[n]? with
+    | none => rw [hx] at heg; simp at heg
+    | some x =>
+      rw [hx] at heg
+      simp only [Option.map_some, Option.some.injEq] at heg
+      subst heg
+      have hsum : st.d0 + st.d1 = polyLength3 sqrt x.1.geom := by
+        obtain ⟨i, p1, p2, d, _, _, _, _, _, _, _, _, hsum⟩ := hso
+        exact hsum
+      exact ⟨hz, n, x, hn, hx, hso, hsum⟩
+
+/-- T21 `near_edge_is_candidate_3d` (T14 with altitudes): the index of C08 reads `getX()`, `getY()` only; for an index built by
+the constructor on the network's geometries, an observation whose planimetric position is inside the extent and an edge number
+`k` with a planimetric point within distance `d` of it: `k` is among the candidates whenever the unit computed by
+`__mapOnNetwork` is `groundDistanceToUnits(d)` — whatever the altitudes of the edge and of the observation. -/
+theorem near_edge_is_candidate_3d {fl : α → Int} (hf : TV.Grid.IsFloor fl) (net : Net3 α) (res : Option (α × α)) (margin : α)
+    (ix : TV.Grid.Index α) (hm : 0 ≤ margin) (hres : ∀ r, res = some r → 0 < r.1 ∧ 0 < r.2)
+    (hb : TV.Grid.build fl (netFeatures3 net) res margin = .ok ix) (hix : net.index = some ix)
+    (k : Nat) (g : List (α × α)) (hk : (netFeatures3 net)[k]? = some g) (A B : α × α) (hAB : (A, B) ∈ TV.Grid.Consec g)
+    (s : α) (hs0 : 0 ≤ s) (hs1 : s ≤ 1) (q : P3 α) (hq : TV.Grid.getCell ix (xy q) ≠ none) (d : α) (hd : 0 ≤ d)
+    (hdist : ((xy q).1 - (TV.Grid.lerp A B s).1) ^ 2 + ((xy q).2 - (TV.Grid.lerp A B s).2) ^ 2 ≤ d ^ 2)
+    (radius : α) (hu : ∀ u, TV.Grid.groundDistanceToUnits fl ix d = .ok u → searchUnit fl radius ix = .ok u) :
+    ∃ l, candidatesOf3 fl radius net q = .ok (some l) ∧ k ∈ l := by
+  rw [candidatesOf3_flat]
+  exact TV.MapMatch.near_edge_is_candidate hf (flatNet net) res margin ix hm hres (by rw [netFeatures3_flat]; exact hb) hix k g
+    (by rw [netFeatures3_flat]; exact hk) A B hAB s hs0 hs1 (xy q) hq d hd hdist radius hu
+
+/-! Non-vacuity of Part IV, evaluated on the model over `Rat`: a road over a hill, `(0,0,0) → (6,8,24) → (12,16,0)` (two
+segments of planimetric length 10 and 3D length 26), built through `readerEdge3` / `buildNet3` with an index of cell size 4 and
+margin 1/4; search radius 6. The observation `(7,1)` at altitude 100 is matched at `(3,4)` with `U = 0`, along-edge distances
+5 and 15: they add up to the PLANIMETRIC length 20 of the edge, whose `abs_curv` column is `[0, 10, 20]` and whose weight
+(`Track.length()`) is 52; `(3,40)` at altitude 7, outside the index, is flagged with its own position `(3,40,7)`; the track
+keeps its 3D positions; the geometry in the network still has its altitudes. -/
+def demoHill : List (EdgeIn3 Rat × Node3 Rat × Node3 Rat) :=
+  [(readerEdge3 sqExact 7 [(0, 0, 0), (6, 8, 24), (12, 16, 0)] 0, ⟨1, (0, 0, 0)⟩, ⟨2, (12, 16, 0)⟩)]
+
+example : (match buildNet3 Rat.floor demoHill 0 (some (4, 4)) (1/4) with
+    | .ok net =>
+      decide ((netEdges3 net).map (·.geom) = [[(0, 0, 0), (6, 8, 24), (12, 16, 0)]] ∧
+              (netEdges3 net).map (·.curv) = [[0, 10, 20]] ∧
+              net.edges.map (·.e.weight) = [52]) &&
+      (match mapOnNetworkFront3 sqExact Rat.floor 1 net (fun _ _ ss => ss.map (fun _ => 0)) ⟨2, 10, 6, false, false⟩
+          (.one ⟨[⟨(7, 1, 100), 0⟩, ⟨(3, 40, 7), 1⟩], [], []⟩) with
+       | ([r], none) =>
+         (match r.inference with
+          | [s0, s1] =>
+            decide (s0.p = (3, 4, 0) ∧ s0.edge = 0 ∧ s0.d0 = 5 ∧ s0.d1 = 15 ∧
+                    s1.p = (3, 40, 7) ∧ s1.edge = -1 ∧ s1.d0 = -1) &&
+            decide (r.track.obs.map (·.pos) = [(7, 1, 100), (3, 40, 7)] ∧
+                    r.track.names = ["obs_noise", "hmm_inference", "hmm_cost"])
+          | _ => false)
+       | _ => false)
+    | .error _ => false) = true := by decide +kernel
+
+/-! ## Part V — when nothing is raised -/
+
+/-- T22 `returns_on_regular_geometries`: the two exceptions of the candidate loop are those of the projection — `ZeroDivisionError`
+on a kept vertical segment (finding D16, class `vertical-segment-zerodiv`) and `UnboundLocalError` on a geometry all of whose
+segments are skipped (class `zero-length-edge-unbound`). On edges with computed `abs_curv` columns whose geometries have no kept
+vertical segment and at least one kept segment (`GoodGeom`), for candidate lists made of existing edge numbers and a decoder
+answering in-range indices (T2b / T2c / T13: the Viterbi decoder does), `__mapOnNetwork` returns: no `ZeroDivisionError`, no
+`UnboundLocalError`, no `KeyError` / `IndexError`. -/
+theorem returns_on_regular_geometries {sqrt : α → α} (hs : SqrtSpec sqrt) (eps radius : α) (edges : List (Edge α))
+    (hcurv : ∀ eg ∈ edges, eg.curv = absCurv sqrt eg.geom) (hgood : ∀ eg ∈ edges, GoodGeom eps eg.geom) (mode : Nat)
+    (decode : List (List (State α)) → List Nat) (track : List (Obs α)) (names : List String)
+    (cands : List (Option (List Nat))) (hc : ∀ c ∈ cands, ∀ E, c = some E → ∀ n ∈ E, n < edges.length)
+    (hdec : ∀ ss, allStates sqrt eps radius edges track cands = .ok ss →
+      ∀ (k : Nat) (l : List (State α)), ss[k]? = some l → (decode ss)[k]?.getD 0 < l.length) :
+    ∃ res, mapOnNetwork sqrt eps radius edges mode decode track names cands = .ok res := by
+  obtain ⟨ss, hss⟩ := allStates_total hs eps radius edges hcurv hgood track cands hc
+  obtain ⟨inf, hinf⟩ := inferAll_total ss (decode ss) (hdec ss hss)
+  unfold mapOnNetwork
+  rw [hss]
+  simp only [hinf]
+  exact ⟨_, rfl⟩
+
+/-- T23 `states_returned_3d`: T22 for the preparation of `STATES[i]` on data with altitudes: whether the projection can raise is
+decided by the PLANIMETRIC geometry alone (an edge that is vertical in space — same `(x, y)`, different altitudes — is a
+zero-length edge for map-matching). -/
+theorem states_returned_3d {sqrt : α → α} (hs : SqrtSpec sqrt) (eps radius : α) (edges : List (Edge3 α))
+    (hcurv : ∀ eg ∈ edges, eg.curv = absCurv3 sqrt eg.geom) (hgood : ∀ eg ∈ edges, GoodGeom eps (eg.geom.map xy))
+    (pos : P3 α) (cand : Option (List Nat)) (hc : ∀ E, cand = some E → ∀ n ∈ E, n < edges.length) :
+    ∃ l, obsStates3 sqrt eps radius edges pos cand = .ok l :=
+  obsStates3_total hs eps radius edges hcurv hgood pos cand hc
+
+/-- T24 `candidates_are_edge_numbers`: on a network built by `addEdge` calls with pairwise different edge ids (index attached
+before or after the last edges) every number the spatial index answers for an observation is the number of an existing edge:
+the grid only ever stores feature numbers handed to `addFeature` — by the constructor (`0 … size-1`) or by `addEdge`
+(`getNumberOfEdges() - 1`) —, so `EDGES[getEdgeId(elem)]` in the candidate loop raises neither `IndexError` nor `KeyError`. -/
+theorem candidates_are_edge_numbers (fl : α → Int) (es : List (EdgeIn α × Node α × Node α)) (late : Nat) (res : Option (α × α))
+    (margin : α) (net : Net α) (hnd : (es.map (fun x => x.1.id)).Nodup) (h : buildNet fl es late res margin = .ok net)
+    (radius : α) (pos : α × α) (E : List Nat) (hc : candidatesOf fl radius net pos = .ok (some E)) :
+    ∀ n ∈ E, n < (netEdges net).length ∧ ∃ eg, (netEdges net)[n]? = some eg := by
+  intro n hn
+  have hlt := candidates_exist fl es late res margin net hnd h radius pos E hc n hn
+  exact ⟨hlt, _, List.getElem?_eq_getElem hlt⟩
+
+/-- T25 `states_returned_on_built_network`: on a network built from `computeAbsCurv`-made edges with pairwise different ids whose
+geometries are regular (`GoodGeom`: no kept vertical segment, at least one kept segment), the preparation of `STATES` for a whole
+track returns unless the index query itself raises (C08's subject; it does not for an observation inside or outside the extent
+of an index built by the constructor): no `ZeroDivisionError` / `UnboundLocalError` of the projection, no `KeyError` /
+`IndexError` on an edge number. With T2b / T13 (in-range decoder) the whole `__mapOnNetwork` returns. -/
+theorem states_returned_on_built_network {sqrt : α → α} (hs : SqrtSpec sqrt) (fl : α → Int) (eps radius : α)
+    (es : List (EdgeIn α × Node α × Node α)) (late : Nat) (res : Option (α × α)) (margin : α) (net : Net α)
+    (hnd : (es.map (fun x => x.1.id)).Nodup) (hmade : ∀ x ∈ es, x.1.curv = absCurv sqrt x.1.geom)
+    (hgood : ∀ x ∈ es, GoodGeom eps x.1.geom) (hb : buildNet fl es late res margin = .ok net)
+    (track : List (Obs α)) (hidx : ∀ o ∈ track, ∃ c, candidatesOf fl radius net o.pos = .ok c) :
+    ∃ ss, allStatesNet sqrt fl eps radius net track = .ok ss :=
+  allStatesNet_total hs fl eps radius es late res margin net hnd hmade hgood hb track hidx
+
+/-- T25b `states_returned_on_built_network_3d`: T25 with altitudes — regularity is that of the planimetric geometries. -/
+theorem states_returned_on_built_network_3d {sqrt : α → α} (hs : SqrtSpec sqrt) (fl : α → Int) (eps radius : α)
+    (es : List (EdgeIn3 α × Node3 α × Node3 α)) (late : Nat) (res : Option (α × α)) (margin : α) (net : Net3 α)
+    (hnd : (es.map (fun x => x.1.id)).Nodup) (hmade : ∀ x ∈ es, x.1.curv = absCurv3 sqrt x.1.geom)
+    (hgood : ∀ x ∈ es, GoodGeom eps (x.1.geom.map xy)) (hb : buildNet3 fl es late res margin = .ok net)
+    (track : List (Obs3 α)) (hidx : ∀ o ∈ track, ∃ c, candidatesOf3 fl radius net o.pos = .ok c) :
+    ∃ ss, allStatesNet3 sqrt fl eps radius net track = .ok ss := by
+  have hflat := buildNet3_flat fl es late res margin
+  rw [hb] at hflat
+  have hb' : buildNet fl (es.map (fun x => (flatEI x.1, flatNode x.2.1, flatNode x.2.2))) late res margin = .ok (flatNet net) :=
+    hflat.symm
+  obtain ⟨ss, hss⟩ := allStatesNet_total hs fl eps radius _ late res margin (flatNet net)
+    (by rw [List.map_map]; exact hnd)
+    (by
+      intro x hx
+      obtain ⟨y, hy, rfl⟩ := List.mem_map.mp hx
+      show y.1.curv = absCurv sqrt (y.1.geom.map xy)
+      rw [← absCurv3_eq]; exact hmade y hy)
+    (by
+      intro x hx
+      obtain ⟨y, hy, rfl⟩ := List.mem_map.mp hx
+      exact hgood y hy)
+    hb' (track.map flatO)
+    (by
+      intro o ho
+      obtain ⟨o3, ho3, rfl⟩ := List.mem_map.mp ho
+      obtain ⟨c, hc⟩ := hidx o3 ho3
+      exact ⟨c, by rw [← hc, candidatesOf3_flat]; rfl⟩)
+  have := allStatesNet3_flat sqrt fl eps radius net track
+  rw [hss] at this
+  cases h3 : allStatesNet3 sqrt fl eps radius net track with
+  | error e => rw [h3] at this; cases this
+  | ok l3 => exact ⟨l3, rfl⟩
+
+/-- non-vacuity: the oblique 3-vertex geometry of `demoEdges` is `GoodGeom` (with the driver's threshold replaced by 1) -/
+example : GoodGeom (1 : Rat) [(8, 1), (11, 5), (15, 5)] := by
+  refine ⟨?_, 0, (8, 1), (11, 5), rfl, rfl, by decide +kernel⟩
+  intro j p1 p2 h1 h2 _
+  match j with
+  | 0 => simp at h1 h2; subst h1 h2; decide +kernel
+  | 1 => simp at h1 h2; subst h1 h2; decide +kernel
+  | (j + 2) => simp at h2
 
 end TV.C10
